@@ -256,6 +256,7 @@ func runC20(c *config) {
 		m := c20GenModule(r)
 		c20CheckModule(c, r, m, i < 1)
 	}
+	c20Escaped(c, r)
 }
 
 func c20Digits(r *rng) string {
@@ -580,5 +581,88 @@ func c20Replay(c *config) {
 			return
 		}
 		fmt.Println(m.String())
+	}
+}
+
+// c20Escaped: names that the printer has to escape or quote (spaces, non-ASCII bytes, backslashes).  The order
+// is the natural order of the names themselves, not of their escaped spellings.
+var (
+	reTypeQ   = regexp.MustCompile(`^%("(?:[^"])*"|[^ ]+) = type `)
+	reComdatQ = regexp.MustCompile(`^\$("(?:[^"])*"|[^ ]+) = comdat `)
+)
+
+func c20Escaped(c *config, r *rng) {
+	o := c.out
+	pool := []string{"a b", "a.c", "aXb", "nz", "n\xc3\xa9", "a\\b", "a b2", "a b10", "A", "a", "b c", "a-b", "a\x7fz", "a!", "a#", "z 9", "z 10"}
+	for i := 0; i < 60*c.scale; i++ {
+		var names []string
+		seen := map[string]bool{}
+		for len(names) < 3+r.intn(5) {
+			n := pool[r.intn(len(pool))]
+			if !seen[n] {
+				seen[n] = true
+				names = append(names, n)
+			}
+		}
+		var b strings.Builder
+		for _, n := range names {
+			fmt.Fprintf(&b, "%s = type { i32 }\n", verifhook.TypeName(n))
+		}
+		for _, n := range names {
+			fmt.Fprintf(&b, "%s = comdat any\n", verifhook.ComdatName(n))
+		}
+		for _, n := range names {
+			fmt.Fprintf(&b, "%s = !{}\n", verifhook.MetadataName(n))
+		}
+		src := b.String()
+		var text string
+		oc, msg := guard(func() error {
+			m, err := asm.ParseString("c20e.ll", src)
+			if err != nil {
+				return err
+			}
+			text = m.String()
+			return nil
+		})
+		o.Stat("escaped_name_modules")
+		if oc != ocOk {
+			o.Fail("canonical_order", "", "a module with names that need escaping is rejected: "+oc.String(), map[string]interface{}{"src": src, "msg": msg})
+			continue
+		}
+		ord := map[string][]string{}
+		for _, line := range strings.Split(text, "\n") {
+			if m := reTypeQ.FindStringSubmatch(line); m != nil {
+				ord["type"] = append(ord["type"], m[1])
+			} else if m := reComdatQ.FindStringSubmatch(line); m != nil {
+				ord["comdat"] = append(ord["comdat"], m[1])
+			} else if m := reNamed.FindStringSubmatch(line); m != nil {
+				ord["named"] = append(ord["named"], m[1])
+			}
+		}
+		bad := ""
+		for _, cat := range c20Sorted {
+			var raw []string
+			for _, tok := range ord[cat] {
+				// undo the printer's spelling: quotes and \XX escapes
+				if strings.HasPrefix(tok, "\"") {
+					raw = append(raw, string(verifhook.Unquote(tok)))
+				} else {
+					raw = append(raw, string(verifhook.Unescape(tok)))
+				}
+			}
+			if len(raw) != len(names) {
+				bad = fmt.Sprintf("%s: %d definitions printed, %d written", cat, len(raw), len(names))
+			}
+			for k := 0; k+1 < len(raw); k++ {
+				if !less(raw[k], raw[k+1]) {
+					bad = fmt.Sprintf("%s definitions are not in the natural order of their names: %q before %q", cat, raw[k], raw[k+1])
+				}
+			}
+		}
+		if bad != "" {
+			o.Fail("canonical_order", "", bad, map[string]interface{}{"src": src, "printed": text})
+		} else {
+			o.Pass("canonical_order")
+		}
 	}
 }
